@@ -5,6 +5,7 @@ import (
 	"go/types"
 	"golang.org/x/tools/go/packages"
 	"sort"
+	"strconv"
 	"strings"
 
 	"golang.org/x/tools/go/ssa"
@@ -296,6 +297,14 @@ func (x *Engine) verifyFunc(fs *FuncSpec, cs *Clause, prop string, mode string) 
 	fr := x.newFrame(fn, nil)
 	fr.top = true
 	fr.spec = fs
+	// the contract carries invariants for loop ordinals: if the function no longer has that many loops (a loop was
+	// extracted into a helper, merged, unrolled by hand), the invariants are bound to the wrong loops or to none — the
+	// contract has to be brought up to date, and until then failures of this function are undecided, not violations
+	for k := range fs.Loops {
+		if n, err := strconv.Atoi(k); err == nil && n > len(fr.loops) {
+			x.degrade(fmt.Sprintf("the contract of %s has invariants for loop %d, the function has %d loop(s): loop structure changed since the contract was written", shortKey(fs.Key), n, len(fr.loops)))
+		}
+	}
 	fr.track = fs.Panics == "never" || fs.Panics == "callees"
 	fr.hooksOnly = fs.Panics == "callees"
 	st := &State{live: "true", h: map[string]string{}}
@@ -339,7 +348,10 @@ func (x *Engine) verifyFunc(fs *FuncSpec, cs *Clause, prop string, mode string) 
 	}
 	for _, c := range fs.Lets {
 		ev := &Eval{x: x, st: st, old: st, env: fr.env, pkg: pkg}
-		lv := x.safeEval(ev, c)
+		lv, okLet := x.trySafeEval(ev, c)
+		if !okLet {
+			continue
+		}
 		lv.T = x.name("let_"+mangle(c.Label), ev.sortOf(lv), lv.T)
 		fr.env[c.Label] = lv
 	}
@@ -366,7 +378,10 @@ func (x *Engine) verifyFunc(fs *FuncSpec, cs *Clause, prop string, mode string) 
 	}
 	for _, c := range fs.Wits {
 		ev := &Eval{x: x, st: st, old: st, env: fr.env, pkg: pkg}
-		wv := x.safeEval(ev, c)
+		wv, okWit := x.trySafeEval(ev, c)
+		if !okWit {
+			continue
+		}
 		srt := ev.sortOf(wv)
 		rep.Witness = append(rep.Witness, Witness{Name: c.Label, Term: x.name("wit_"+mangle(c.Label), srt, wv.T), Sort: srt})
 	}
